@@ -135,9 +135,15 @@ enum Kind {
     Limit,
     HeldContext,
     Timed,
+    /// the stop key is tapped while a tap-hold decision is pending: kanata processes the stop
+    /// only after later events have arrived (genuine deviation, see findings)
+    LateStop,
 }
 
 fn kind_of(idx: u64) -> Kind {
+    if idx % 120 == 11 {
+        return Kind::LateStop;
+    }
     match idx % 12 {
         0 | 1 | 2 => Kind::Basic,
         3 => Kind::ReRecord,
@@ -219,19 +225,37 @@ fn sensitive_action(rng: &mut Rng, shapes: &mut BTreeSet<&'static str>, t: u32) 
 }
 
 fn make_cfg(rng: &mut Rng, kind: Kind) -> Cfg {
-    let time_sensitive = kind == Kind::Timed;
-    let recorded_delays = if time_sensitive { rng.chance(4, 5) } else { rng.coin() };
+    let time_sensitive = kind == Kind::Timed || kind == Kind::LateStop;
+    let recorded_delays = if kind == Kind::LateStop {
+        true
+    } else if time_sensitive {
+        rng.chance(4, 5)
+    } else {
+        rng.coin()
+    };
     let max_presses = if kind == Kind::Limit { rng.below(6) as u32 } else { *rng.pick(&[128u32, 128, 1000, 40]) };
     let trunc = [rng.range(1, 3) as u32, rng.range(2, 9) as u32];
-    let witness = rng.coin();
-    let t = *rng.pick(&[20u32, 30, 50]);
+    let witness = rng.coin() || kind == Kind::LateStop;
+    let t = if kind == Kind::LateStop { 200 } else { *rng.pick(&[20u32, 30, 50]) };
     let mut shapes = BTreeSet::new();
     let mut src: Vec<String> = vec![];
     let mut l0: Vec<String> = vec![];
     let mut l1: Vec<String> = vec![];
     for k in TYPING {
         src.push(k.to_string());
-        let a0 = if time_sensitive && rng.chance(1, 2) { sensitive_action(rng, &mut shapes, t) } else { insensitive_action(rng, &mut shapes) };
+        let a0 = if kind == Kind::LateStop {
+            // only the first typing key is a (slow) tap-hold, the others are plain
+            if *k == TYPING[0] {
+                shapes.insert("tap-hold");
+                format!("(tap-hold {t} {t} x lsft)")
+            } else {
+                insensitive_action(rng, &mut shapes)
+            }
+        } else if time_sensitive && rng.chance(1, 2) {
+            sensitive_action(rng, &mut shapes, t)
+        } else {
+            insensitive_action(rng, &mut shapes)
+        };
         l0.push(a0);
         l1.push(if rng.chance(1, 3) {
             shapes.insert("transparent");
@@ -664,6 +688,29 @@ fn make_case(ctx: &Ctx, idx: u64) -> Case {
                 play_id = bb;
             }
         }
+        Kind::LateStop => {
+            play_id = 0;
+            b.tick(10);
+            b.press_record(0);
+            b.release(osc(REC[0]));
+            b.tick(3);
+            let plain: Vec<u16> = keys[1..5].to_vec();
+            let n_ = 2 * rng.usize(3);
+            b.typing(&mut rng, &plain, n_);
+            b.release_typing(&mut rng, &plain);
+            b.tick(20);
+            // hold the tap-hold key, tap the stop key before the decision
+            let th = osc(TYPING[0]);
+            b.press(th);
+            b.tick(rng.range(2, 30) as u32);
+            b.press_stop(STOP, 0);
+            b.tick(rng.range(1, 40) as u32);
+            b.release(osc(STOP));
+            b.tick(400);
+            b.release_all(&mut rng);
+            b.settle();
+            notes.push("stop key tapped while a tap-hold decision was pending".into());
+        }
         Kind::Limit => {
             b.tick(10);
             b.press_record(play_id);
@@ -993,6 +1040,9 @@ impl Check for C19Check {
             }
         }
         let rec_len = st.map(|s| s.evs.len()).unwrap_or(0);
+        if case.kind == Kind::LateStop {
+            out.inc("late_stop_cases");
+        }
         if let Some(v) = &verdict {
             if let Some((sig, what)) = &v.sig {
                 let (sig, what) = if st.map(|s| s.by_limit).unwrap_or(false) {
@@ -1000,7 +1050,12 @@ impl Check for C19Check {
                 } else {
                     // a control key's witness output in the replay means the stop key / truncated tail was replayed
                     let ctl = v.replay.iter().filter(|o| o.name == "F15" || o.name == "F16").count() != v.twin.iter().filter(|o| o.name == "F15" || o.name == "F16").count();
-                    (if ctl { "C19:stop-key-replayed".to_string() } else { sig.clone() }, what.clone())
+                    let s = match (ctl, case.kind) {
+                        (true, Kind::LateStop) => "C19:stop-key-replayed:stop-processed-after-later-events".to_string(),
+                        (true, _) => "C19:stop-key-replayed".to_string(),
+                        _ => sig.clone(),
+                    };
+                    (s, what.clone())
                 };
                 out.violate(sig, what, witness(&case, Some(v), json!({"delay_behaviour": if case.cfg.recorded_delays { "recorded" } else { "constant" }, "items_stored_by_kanata": stored_in_kanata, "limit_cut": limit_cut})));
                 return out;
@@ -1103,6 +1158,7 @@ impl Check for C19Check {
             ("limit_hits", 1_500 * s),
             ("delay_constant", 6_000 * s),
             ("delay_recorded", 9_000 * s),
+            ("late_stop_cases", 150 * s),
         ]
     }
 }
